@@ -297,7 +297,7 @@ def plans(draw, versions=None):
     cid, tx, rx = cls.COMMANDS[bname]
     rxv, rxb = draw(values.schema_strategy(rx))
     seq = pend["seq"] if pend and draw(st.integers(0, 3)) else draw(st.integers(0, 255))
-    frame = bytearray(refezsp.header(v, seq, cid, draw(st.sampled_from([0x80, 0x90, 0x00, 0xFF]))) + rxb)
+    frame = bytearray(refezsp.header(v, seq, cid, draw(st.sampled_from([0x80, 0x90, 0x00, 0xFF, 0x82, 0x81]))) + rxb)
     mut = draw(st.sampled_from(["none", "truncate", "truncate", "flip", "flip", "id-known", "id-unknown", "seq", "junk", "header-only"]))
     if mut == "truncate" and frame:
         frame = frame[:draw(st.integers(0, len(frame) - 1))]
@@ -327,7 +327,7 @@ def plans_with_history(draw):
     if draw(st.integers(0, 2)) == 0 and not (plan.get("pending") or {}).get("switch_to"):
         fr = plan["frame"]
         other = draw(plans(versions=[plan["v"]]))["frame"]
-        plan["before"] = draw(st.sampled_from([[fr], [fr, fr], [other], [other, fr], [fr, other]]))
+        plan["before"] = draw(st.sampled_from([[fr], [fr, fr], [other], [other, fr], [fr, other], [fr] * 8, [other] * 9 + [fr]]))
     return plan
 
 
@@ -351,7 +351,7 @@ def _worker_repeat(ctx, v):
                 payload = b"\x34"  # one byte short of a node ID
             frame = (refezsp.header(v, 0x21, fid, 0x80) + payload).hex()
             for pend in (None, {"name": "getNodeId", "seq": 0x21, "txb": ""}, {"name": "nop", "seq": 0x22, "txb": ""}):
-                for before in ([frame], [frame, frame]):
+                for before in ([frame], [frame, frame], [frame] * 9):
                     plan = {"v": v, "pending": pend, "frame": frame, "before": before, "mut": "repeat"}
                     ctx.check(plan, check(plan), sample=(fid == picks[0] and pend is None and len(before) == 1 and payload == b""))
 
